@@ -28,7 +28,8 @@ def canon(v, _depth=0, _seen=None):
             return (_tn(t, float), "0.0")
         return (_tn(t, float), float.__repr__(v))
     if isinstance(v, complex):
-        return ("complex", repr(v))
+        # the sign of a zero part is not significant (like -0.0 for floats)
+        return ("complex", canon(v.real)[1], canon(v.imag)[1])
     if isinstance(v, decimal.Decimal):
         if v.is_nan():
             return ("Decimal", "NaN")
